@@ -176,7 +176,7 @@ def window_rule(run, f, rid):
                 why.append("the accumulator is advanced at %d sites (expected 1)" % len(incs))
             else:
                 ib = incs[0][0]
-                re = [y for (y, tt) in find_calls(b, callee_is("syscall::unix::reset_errno"))]
+                re = [y for (y, tt) in find_calls(b, callee_is("syscall::unix::reset_errno"))] + [y for (y, tt) in find_calls(b, callee_is("syscall::unix::set_errno")) if tt["args"] and str(op_const(tt["args"][0])) == "0"]
                 if not any(cfg.dominates(y, ib) for y in re) or not cfg.dominates(x, ib):
                     why.append("the accumulator is advanced without reset_errno() on the success edge")
                 # the amount added is this call's result
